@@ -19,6 +19,11 @@ LEVEL = "exploration"
 ME = "mc.props.C12"
 
 
+# the flag is a truth value: False / 0 ask for the raw Miller value, omitted / True / 1 for the pairing
+_FLAG_OFF = (False, 0)
+_FLAG_ON = (None, True, 1)
+
+
 def _pair(S, fam, a, b, lam1=1, lam2=(1, 0), fe=None, fqc=False):
     P = S.E1.mul(S.G1, a)
     Q = S.E2.mul(S.G2, b)
@@ -125,11 +130,11 @@ def _split_eval(S, fam, pairs, ms):
     for i in set(ms):
         a, b = pairs[i]
         l1, l2, fqc = reps[i % len(reps)]
-        o = _pair(S, fam, a, b, l1, l2, fe=False, fqc=fqc)
+        o = _pair(S, fam, a, b, l1, l2, fe=_FLAG_OFF[i % 2], fqc=fqc)
         if o[0] != "ok":
             return "miller value computes", o, None
         mill[i] = o[1]
-        one_shot[i] = _co(S, _pair(S, fam, a, b))
+        one_shot[i] = _co(S, _pair(S, fam, a, b, fe=_FLAG_ON[i % 3]))
         if not (isinstance(one_shot[i], tuple) and len(one_shot[i]) == 12):
             return "one-shot pairing computes", one_shot[i], None
     base = _co(S, _pair(S, fam, 1, 1))
@@ -158,8 +163,8 @@ def task_split(a, env):
     reps = [(1, (1, 0), False), (2, (0, 2), False), (1, (1, 0), True), (S.p - 1, (3, 1), True)]
     for pi, (av, bv) in enumerate(pairs):
         l1, l2, fqc = reps[pi % len(reps)]
-        o = _pair(S, fam, av, bv, l1, l2, fe=False, fqc=fqc)
-        s = _co(S, _pair(S, fam, av, bv))
+        o = _pair(S, fam, av, bv, l1, l2, fe=_FLAG_OFF[pi % 2], fqc=fqc)
+        s = _co(S, _pair(S, fam, av, bv, fe=_FLAG_ON[pi % 3]))
         if o[0] != "ok" or not (isinstance(s, tuple) and len(s) == 12):
             r.ev += 1
             r.viol("C12:%s:%s:split:pairing-fails" % (a["cfg"], fam), ME + ":replay_split",
@@ -312,6 +317,63 @@ def _multisets(n, kmax):
     return out
 
 
+# ------------------------------------------------------------------ long histories
+def sweep_case(cfg, fam, n, sparse=False):
+    """history: 3 anchor pairings; then n pairings on pairwise distinct G2 representatives; after 1, 2, 3, 4,
+    6, 8, 12, 16, ... of them the anchors are evaluated again (with and without the final
+    exponentiation): every repeat must equal the first evaluation.  Returns None or (after, what, first, again)."""
+    S = PL.get(cfg)
+    anchors = [(1, 1, 1, (1, 0)), (2, 3, 1, (1, 0)), (S.r - 1, 2, 2, (0, 1))]
+
+    def ev(t, fe):
+        a, b, l1, l2 = t
+        return _co(S, _pair(S, fam, a, b, l1, l2, fe=fe))
+
+    first = {(i, fe): ev(t, fe) for i, t in enumerate(anchors) for fe in (None, False)}
+    checkpoints, c = set(), 1
+    while c <= n:
+        checkpoints |= {c, c + c // 2}
+        c *= 2
+    checkpoints.add(n)
+    if sparse:  # full size: the anchors again only after 25 and after n distinct pairings
+        checkpoints = {min(25, n), n}
+    j = 0
+    for lam_a in range(1, S.p):
+        for lam_b in range(0, S.p):
+            for b in range(1, min(S.r, 40)):
+                if (b, lam_a, lam_b) in ((1, 1, 0), (3, 1, 0)) or (b == 2 and (lam_a, lam_b) == (0, 1)):
+                    continue
+                j += 1
+                if j > n:
+                    return None
+                ev((1 + j % 5, b, 1, (lam_a, lam_b)), None if j % 2 else False)
+                if j in checkpoints:
+                    for (i, fe), want in first.items():
+                        got = ev(anchors[i], fe)
+                        if got != want:
+                            return (j, "anchor %d, final_exponentiate=%s" % (i, fe is None), want, got)
+    return None
+
+
+def task_sweep(a, env):
+    r = R("%s:%s:anchors-again-after-n-distinct-pairings" % (a["cfg"], a["fam"]))
+    bad = sweep_case(a["cfg"], a["fam"], a["n"], a.get("sparse", False))
+    r.ev += a["n"] + 6 * 20
+    r.dk.add((a["cfg"], a["fam"], a["n"]))
+    if bad:
+        r.viol("C12:%s:%s:repeat-differs-after-many-distinct" % (a["cfg"], a["fam"]), ME + ":replay_sweep",
+               {"cfg": a["cfg"], "fam": a["fam"], "n": bad[0], "sparse": a.get("sparse", False)}, bad[2], bad[3],
+               note="%s after %d distinct pairings" % (bad[1], bad[0]))
+    r.sample({"cfg": a["cfg"], "module": a["fam"], "n": a["n"],
+              "history": "e(Q0,P0), e(Q1,P1), e(Q2,P2); e(Q3,.); anchors again; e(Q4,.); anchors again; e(Q5,.), e(Q6,.); anchors again; ..."})
+    return r
+
+
+def replay_sweep(a):
+    bad = sweep_case(a["cfg"], a["fam"], a["n"], a.get("sparse", False))
+    return None if not bad else {"after": bad[0], "what": bad[1], "first": bad[2], "again": bad[3]}
+
+
 def run(ctx):
     ctx.rule = (
         "ref==opt: one case per (a, b, scaling), distinct = distinct (a mod r, b mod r); split "
@@ -385,6 +447,12 @@ def run(ctx):
                                      "thin": 12 if ctx.quick else 2}))
     for cfg in PL.FULL + ("BLS-T2", "BN-T"):
         tasks.append(("refopt_inf", {"cfg": cfg}))
+    for cfg in ("BN-T", "BLS-T2"):
+        for fam in ("opt", "ref"):
+            n = (300 if fam == "opt" else 100) if ctx.quick else (5000 if fam == "opt" else 1000)
+            tasks.append(("sweep", {"cfg": cfg, "fam": fam, "n": n}))
+    for cfg in PL.FULL:  # full size: short sweep (a table of a few dozen entries)
+        tasks.append(("sweep", {"cfg": cfg, "fam": "opt", "n": 34 if ctx.quick else 140, "sparse": True}))
     ctx.bounds = bounds
     tasks.sort(key=lambda t: 0 if t[1]["cfg"] in PL.FULL and (t[0] == "refopt" or t[1].get("fam") == "ref") else 1)
     ctx.pmap(ME, tasks)
